@@ -21,6 +21,9 @@ func Buffered[T any](s Stream[T], size int) Stream[T] {
 	// goroutine when it is done, so a new channel is created on each open to support reusability (double collection)
 	var bufferChanStream Stream[shpanstream.Result[T]]
 
+	// Stops the buffering goroutine of the current materialization and waits for it to finish
+	var stopBuffering func()
+
 	return newStream[T](
 		func(ctx context.Context) (T, error) {
 			r, err := bufferChanStream.provider(ctx)
@@ -41,6 +44,15 @@ func Buffered[T any](s Stream[T], size int) Stream[T] {
 		WithAdditionalLifecycle(NewLifecycle(
 			func(ctx context.Context) error {
 
+				// The buffering goroutine reads the source stream, so it must be gone before this stream is
+				// considered closed: it gets its own cancellable context and is awaited when the stream is closed
+				ctx, cancelBuffering := context.WithCancel(ctx)
+				bufferingDone := make(chan struct{})
+				stopBuffering = func() {
+					cancelBuffering()
+					<-bufferingDone
+				}
+
 				// Create a buffered channel of type Result size-1
 				// (-1 since one item will block while trying to write to the channel)
 				// Result will either be T or an upstream error
@@ -51,6 +63,7 @@ func Buffered[T any](s Stream[T], size int) Stream[T] {
 
 				// Start Reading from the source stream and populate the buffer channel
 				go func() {
+					defer close(bufferingDone)
 					// Make sure to close the buffer channel when either the source stream is done, or the context is cancelled
 					defer close(bufferChan)
 
@@ -80,6 +93,10 @@ func Buffered[T any](s Stream[T], size int) Stream[T] {
 				return nil
 			},
 			func() {
+				if stopBuffering != nil {
+					stopBuffering()
+					stopBuffering = nil
+				}
 			},
 		))
 }
